@@ -10,7 +10,7 @@ Decided:
  (3) the crate defines no static / thread-local and contains no unsafe operation (nothing can carry state
      between calls or threads).
 Not decided: that flipping a seed bit changes the key pair (property of ChaCha12 and the rejection loop)."""
-from fv.absint import St, Pt, Ag, I, Sq, En, Md, iter_ints
+from fv.absint import St, Pt, Ag, I, Sq, En, Md, Fl, iter_ints
 from fv.mir import kind_of
 from .common import Session
 from . import effects, skeleton
@@ -148,19 +148,69 @@ def run(R):
                 f"ntru_gen calls: {len(ng)}; generator argument is not the from_seed generator", key=f"ntru|{N}")
         other = [e for e in events if e[0] == "entropy"]
         R.check(not other, "C15-seed", site + " (other draws)", "nothing else draws randomness between keygen and ntru_gen", f"extra draws: {other[:3]}", key=f"extra|{N}")
-    # ntru_gen / gen_poly / sampler_z: all draws come from the parameter
+    # ntru_gen / gen_poly / sampler_z: all draws come from the parameter.  Compositional: (a) sampler_z, run on its own
+    # with an arbitrary centre/width, draws from nothing but its generator parameter; (b) in ntru_gen every call of
+    # sampler_z is handed ntru_gen's own generator parameter (sampler_z is not re-analysed at each of its 4096 call
+    # instances), and nothing outside sampler_z draws from any other generator.
     inst = S.find("math::ntru_gen")
     draws = []
 
+    def origin_of(stt, p):
+        try:
+            tgt = p
+            while type(tgt) is Pt:
+                tgt = S.E.load(stt, tgt.key, tgt.proj)
+            return tgt.d.get("origin") if type(tgt) is Md and tgt.kind == "rng" else None
+        except Exception:
+            return None
+
     def obs2(ev, **kw):
-        if ev == "entropy" and not ctx.quiet:
+        if ctx.quiet:
+            return
+        if ev == "entropy":
             r = kw["rng"]
             draws.append((kw["frame"].inst.name, r.d.get("origin") if type(r) is Md else None))
     ctx.observers.append(obs2)
+    sz = [i for i in prog.inst if i.local and i.name.endswith("samplerz::sampler_z") and i.body is not None]
+    if sz:
+        st = St()
+        rng = S.cell(st, "rng", Md("rng", {"origin": "param", "site": None}), mut=True)
+        S.run(sz[0], [Fl(-1e6, 1e6, False), Fl(1.0, 2.0, False), Fl(1.0, 2.0, False), rng], st)
+        n_sz = len(draws)
+        R.floor("abstract draws inside sampler_z", n_sz, 1)
+        # in ntru_gen: the first call with given float arguments is analysed in place (its draws are observed as usual);
+        # later calls with the same arguments reuse that result range and only record which generator they are handed
+        cache = {}
+        busy = [False]
+
+        def m_sampler_z(E, stt, fr, bi, callee, args, dest_ty):
+            if busy[0]:
+                return None
+            key = tuple((a.lo, a.hi) for a in args if type(a) is Fl)
+            rngs = [a for a in args if type(a) is Pt]
+            if key in cache and rngs:
+                if not ctx.quiet:
+                    draws.append((callee.name + " (call in " + fr.inst.name + ")", origin_of(stt, rngs[-1])))
+                lo, hi = cache[key]
+                return [(ctx.mk_int(stt, lo, hi, dest_ty), stt)]
+            busy[0] = True
+            try:
+                outs = E.run(callee, args, stt, fr, bi)
+            finally:
+                busy[0] = False
+            if len(outs) == 1 and type(outs[0][0]) is I:
+                cache[key] = outs[0][1].itv[outs[0][0].vid]
+            return outs
+        import re
+        ctx.models.table[:0] = [(re.compile(re.escape(sz[0].name) + "$"), m_sampler_z)]
+        ctx.models.cache.clear()
     for n in (512, 1024):
         st = St()
         rng = S.cell(st, "rng", Md("rng", {"origin": "param", "site": None}), mut=True)
         S.run(inst, [ctx.const_int(st, n, ctx.usize_ty()), rng], st)
+    if sz:
+        del ctx.models.table[0]
+        ctx.models.cache.clear()
     ctx.observers.remove(obs2)
     fns = sorted({d[0] for d in draws})
     bad = [d for d in draws if d[1] != "param"]
